@@ -189,3 +189,129 @@ theorem spaceOK_sound (n : Nat) (R : List Con) (gs : List Gen) (hwf : WF (2*n) R
     linarith
 
 end PPLV.Term
+
+namespace PPLV.Term
+open PPLV.Lin
+
+/-! ### the two quasi spaces of `all_affine_quasi_ranking_functions_MS` -/
+
+theorem decrRow_implies_spec (n : Nat) (R : List Con) (c : List Int) (d e : Int) (hd : 0 < d)
+    (hwf : WF (2*n) R) (h : implies (2*n) R (decrRow n c e) = true) (w : Val) (hw : w ∈ sem R) :
+    (e : Rat) ≤ (d : Rat) * Spec.decrAt n (ratPoint c d) w := by
+  have hd' : (0 : Rat) < (d : Rat) := by exact_mod_cast hd
+  rw [implies_iff (2*n) R _ hwf (decrRow_len n c e)] at h
+  have a := h w hw
+  have e2 := decrRow_eval_ratPoint n c d e (ne_of_gt hd') w
+  unfold Con.sat at a
+  simp only [decrRow, Bool.false_eq_true, if_false] at a e2
+  rw [e2] at a
+  linarith
+
+theorem valueRow_implies_spec (n : Nat) (R : List Con) (c : List Int) (d : Int) (hd : 0 < d)
+    (hwf : WF (2*n) R) (h : implies (2*n) R (valueRow n c) = true) (w : Val) (hw : w ∈ sem R) :
+    0 ≤ Spec.valueAt n (ratPoint c d) w := by
+  have hd' : (0 : Rat) < (d : Rat) := by exact_mod_cast hd
+  rw [implies_iff (2*n) R _ hwf (valueRow_len n c)] at h
+  have a := h w hw
+  have e1 := valueRow_eval_ratPoint n c d (ne_of_gt hd') w
+  unfold Con.sat at a
+  simp only [valueRow, Bool.false_eq_true, if_false] at a e1
+  rw [e1] at a
+  exact (mul_nonneg_iff_of_pos_left hd').mp a
+
+/-- every element of a space whose generators pass `decrGenOK` decreases by at least `1` -/
+theorem quasi_decreasing_sound (n : Nat) (R : List Con) (gs : List Gen) (hwf : WF (2*n) R)
+    (h : quasiOK n R true gs = true) (mu : Val) (hmu : mu ∈ GenSem (n + 1) gs)
+    (w : Val) (hw : w ∈ sem R) : 1 ≤ Spec.decrAt n mu w := by
+  obtain ⟨lam, hnn, hsum, -, hcoord⟩ := hmu
+  unfold quasiOK at h
+  simp only [if_true, List.all_eq_true] at h
+  rw [decrAt_genSem n gs lam mu w hcoord]
+  have key : ∀ j < gs.length,
+      0 ≤ lam j * (Spec.decrAt n (gs.getD j default).coord w
+                    - (if (gs.getD j default).isPtOrCp then 1 else 0)) := by
+    intro j hj
+    have hg := h _ (mem_of_getD gs j hj)
+    have hl := hnn j hj
+    generalize gs.getD j default = g at hg hl
+    unfold decrGenOK at hg
+    rw [coord_eq_ratPoint]
+    cases hk : g.kind with
+    | point =>
+      rw [hk] at hg
+      rw [Bool.and_eq_true, decide_eq_true_eq] at hg
+      have hd : g.d = g.div := by simp [Gen.d, Gen.isPtOrCp, hk]
+      have hpc : g.isPtOrCp = true := by simp [Gen.isPtOrCp, hk]
+      have hlam := hl (by simp [Gen.isLine, hk])
+      have hd' : (0 : Rat) < (g.div : Rat) := by exact_mod_cast hg.1
+      have a := decrRow_implies_spec n R g.coords g.div g.div hg.1 hwf hg.2 w hw
+      have : 0 ≤ (g.div : Rat) * (Spec.decrAt n (ratPoint g.coords g.div) w - 1) := by linarith
+      have := (mul_nonneg_iff_of_pos_left hd').mp this
+      rw [hd, hpc]
+      exact mul_nonneg hlam (by simpa using this)
+    | ray =>
+      rw [hk] at hg
+      have hd : g.d = 1 := by simp [Gen.d, Gen.isPtOrCp, hk]
+      have hpc : g.isPtOrCp = false := by simp [Gen.isPtOrCp, hk]
+      have hlam := hl (by simp [Gen.isLine, hk])
+      have a := decrRow_implies_spec n R g.coords 1 0 (by norm_num) hwf hg w hw
+      rw [hd, hpc]
+      exact mul_nonneg hlam (by simpa using a)
+    | line =>
+      rw [hk] at hg
+      rw [Bool.and_eq_true] at hg
+      have hd : g.d = 1 := by simp [Gen.d, Gen.isPtOrCp, hk]
+      have hpc : g.isPtOrCp = false := by simp [Gen.isPtOrCp, hk]
+      have a := decrRow_implies_spec n R g.coords 1 0 (by norm_num) hwf hg.1 w hw
+      have b := decrRow_implies_spec n R _ 1 0 (by norm_num) hwf hg.2 w hw
+      rw [decrAt_ratPoint_neg] at b
+      have d0 : Spec.decrAt n (ratPoint g.coords 1) w = 0 := by
+        simp only [Int.cast_zero, Int.cast_one, one_mul] at a b
+        linarith
+      rw [hd, hpc, d0]; simp
+    | cpoint => rw [hk] at hg; cases hg
+  have := wsum_nonneg (fun g => Spec.decrAt n g.coord w - (if g.isPtOrCp then 1 else 0)) gs lam key
+  rw [wsum_sub, hsum] at this
+  linarith
+
+/-- every element of a space whose generators pass `boundGenOK` is bounded from below by `0` -/
+theorem quasi_bounded_sound (n : Nat) (R : List Con) (gs : List Gen) (hwf : WF (2*n) R)
+    (h : quasiOK n R false gs = true) (mu : Val) (hmu : mu ∈ GenSem (n + 1) gs)
+    (w : Val) (hw : w ∈ sem R) : 0 ≤ Spec.valueAt n mu w := by
+  obtain ⟨lam, hnn, -, -, hcoord⟩ := hmu
+  unfold quasiOK at h
+  simp only [Bool.false_eq_true, if_false, List.all_eq_true] at h
+  rw [valueAt_genSem n gs lam mu w hcoord]
+  apply wsum_nonneg
+  intro j hj
+  have hg := h _ (mem_of_getD gs j hj)
+  have hl := hnn j hj
+  generalize gs.getD j default = g at hg hl
+  unfold boundGenOK at hg
+  rw [coord_eq_ratPoint]
+  cases hk : g.kind with
+  | point =>
+    rw [hk] at hg
+    rw [Bool.and_eq_true, decide_eq_true_eq] at hg
+    have hd : g.d = g.div := by simp [Gen.d, Gen.isPtOrCp, hk]
+    have hlam := hl (by simp [Gen.isLine, hk])
+    rw [hd]
+    exact mul_nonneg hlam (valueRow_implies_spec n R g.coords g.div hg.1 hwf hg.2 w hw)
+  | ray =>
+    rw [hk] at hg
+    have hd : g.d = 1 := by simp [Gen.d, Gen.isPtOrCp, hk]
+    have hlam := hl (by simp [Gen.isLine, hk])
+    rw [hd]
+    exact mul_nonneg hlam (valueRow_implies_spec n R g.coords 1 (by norm_num) hwf hg w hw)
+  | line =>
+    rw [hk] at hg
+    rw [Bool.and_eq_true] at hg
+    have hd : g.d = 1 := by simp [Gen.d, Gen.isPtOrCp, hk]
+    have a := valueRow_implies_spec n R g.coords 1 (by norm_num) hwf hg.1 w hw
+    have b := valueRow_implies_spec n R _ 1 (by norm_num) hwf hg.2 w hw
+    rw [valueAt_ratPoint_neg] at b
+    have v0 : Spec.valueAt n (ratPoint g.coords 1) w = 0 := by linarith
+    rw [hd, v0]; simp
+  | cpoint => rw [hk] at hg; cases hg
+
+end PPLV.Term
